@@ -1,6 +1,6 @@
 SPECIFICATION Spec
 CONSTANTS
-  MaxLogs = 2
+  MaxLogs = 4
   PageSizes = {1, 2}
   MaxFail = 2
   MaxStops = 1
@@ -8,11 +8,11 @@ CONSTANTS
   MaxRestarts = 1
   JoinSubscriber = FALSE
   Mutant = "none"
-  LateAccepts = TRUE
+  LateAccepts = FALSE
   RecordHist = FALSE
 INVARIANTS
-  TypeOK
-  InvBatchContiguous
-  InvPersistedLeAcked
-  InvLastLeAcked
-  InvNoGapEver
+ TypeOK
+ InvBatchContiguous
+ InvPersistedLeAcked
+ InvLastLeAcked
+ InvNoGapEver
